@@ -15,6 +15,10 @@ struct Ctx<'a> {
     r: &'a mut Rng, tab: &'a Table, cfg: &'a GenCfg, info: &'a mut GInfo,
     types: &'a [(Vec<u8>, Vec<u8>)], func_types: &'a [u32],
     nparams: usize, params: Vec<u8>, results: Vec<u8>, by_first_param: Vec<Vec<usize>>,
+    /// positions (in `labels`) of the labels that are loops; in the Exec profile nothing branches to them, so that every generated function terminates
+    loops: Vec<usize>,
+    /// index of the function being generated (Exec profile: tail calls only go to lower indices, so they cannot cycle)
+    cur: usize,
 }
 
 fn interesting_const(r: &mut Rng, c: u8) -> I<'static> {
@@ -29,6 +33,9 @@ fn interesting_const(r: &mut Rng, c: u8) -> I<'static> {
 }
 
 impl<'a> Ctx<'a> {
+    fn pick_label(&mut self, labels: &Vec<Vec<u8>>) -> usize {
+        loop { let d = self.r.usize(labels.len()); if self.cfg.profile == Profile::Exec && self.loops.contains(&(labels.len() - 1 - d)) { continue; } return d; }
+    }
     /// local index whose type code is c: parameters first, then the 7 fixed locals
     fn local_of(&mut self, c: u8) -> u32 {
         let mut cands: Vec<u32> = self.params.iter().enumerate().filter(|(_, t)| **t == c).map(|(i, _)| i as u32).collect();
@@ -65,7 +72,7 @@ impl<'a> Ctx<'a> {
                     out.push(I::Block(we::BlockType::Empty)); labels.push(vec![]);
                     let body = self.seq(labels, vec![], &[], depth + 1); out.extend(body); labels.pop(); out.push(I::End); self.note("Block"); self.info.blocks += 1;
                 }
-                2 => { let d = self.r.usize(labels.len()); out.push(I::Br(d as u32)); self.note("Br"); }
+                2 => { let d = self.pick_label(labels); out.push(I::Br(d as u32)); self.note("Br"); }
                 _ => { let k = self.r.usize(self.tab.insts.len()); let inst = self.tab.insts[k].clone();
                        if inst.name.starts_with("Local") { continue; }
                        if inst.name == "ReturnCall" || inst.name == "ReturnCallIndirect" { continue; }
@@ -132,7 +139,7 @@ impl<'a> Ctx<'a> {
                     self.info.blocks += 1;
                     match self.r.below(3) {
                         0 => { out.push(I::Block(bt)); self.note("Block"); labels.push(rs.clone()); let b = self.seq(labels, ps.clone(), &rs, depth + 1); out.extend(b); labels.pop(); out.push(I::End); }
-                        1 => { out.push(I::Loop(bt)); self.note("Loop"); labels.push(ps.clone()); let b = self.seq(labels, ps.clone(), &rs, depth + 1); out.extend(b); labels.pop(); out.push(I::End); }
+                        1 => { out.push(I::Loop(bt)); self.note("Loop"); self.loops.push(labels.len()); labels.push(ps.clone()); let b = self.seq(labels, ps.clone(), &rs, depth + 1); out.extend(b); labels.pop(); self.loops.pop(); out.push(I::End); }
                         _ => { self.push_val(&mut out, 0); out.push(I::If(bt)); self.note("If"); labels.push(rs.clone());
                                let b = self.seq(labels, ps.clone(), &rs, depth + 1); out.extend(b);
                                if ps != rs || self.r.chance(1, 2) { out.push(I::Else); self.note("Else"); let e = self.seq(labels, ps.clone(), &rs, depth + 1); out.extend(e); }
@@ -141,7 +148,7 @@ impl<'a> Ctx<'a> {
                     for c in rs { stack.push(c); }
                 }
                 80..=85 => { // br_if keeps the label's values
-                    let d = self.r.usize(labels.len()); let lt = labels[labels.len() - 1 - d].clone();
+                    let d = self.pick_label(labels); let lt = labels[labels.len() - 1 - d].clone();
                     for c in lt.clone() { self.push_val(&mut out, c); }
                     self.push_val(&mut out, 0); out.push(I::BrIf(d as u32)); self.note("BrIf");
                     for c in lt { stack.push(c); }
@@ -150,16 +157,16 @@ impl<'a> Ctx<'a> {
                 90..=99 => {
                     // an unconditional transfer, then dead code; the sequence ends here
                     match self.r.below(6) {
-                        0 => { let d = self.r.usize(labels.len()); let lt = labels[labels.len() - 1 - d].clone(); for c in lt { self.push_val(&mut out, c); } out.push(I::Br(d as u32)); self.note("Br"); }
+                        0 => { let d = self.pick_label(labels); let lt = labels[labels.len() - 1 - d].clone(); for c in lt { self.push_val(&mut out, c); } out.push(I::Br(d as u32)); self.note("Br"); }
                         1 => { // br_table over labels of equal type
-                            let d = self.r.usize(labels.len()); let lt = labels[labels.len() - 1 - d].clone();
-                            let same: Vec<u32> = (0..labels.len()).filter(|k| labels[labels.len() - 1 - k] == lt).map(|k| k as u32).collect();
+                            let d = self.pick_label(labels); let lt = labels[labels.len() - 1 - d].clone();
+                            let exec = self.cfg.profile == Profile::Exec; let same: Vec<u32> = (0..labels.len()).filter(|k| labels[labels.len() - 1 - k] == lt && !(exec && self.loops.contains(&(labels.len() - 1 - k)))).map(|k| k as u32).collect();
                             let nt = self.r.usize(4); let ts: Vec<u32> = (0..nt).map(|_| *self.r.pick(&same)).collect();
                             for c in lt { self.push_val(&mut out, c); } self.push_val(&mut out, 0);
                             out.push(I::BrTable(ts.into(), d as u32)); self.note("BrTable"); }
                         2 => { for c in self.results.clone() { self.push_val(&mut out, c); } out.push(I::Return); self.note("Return"); }
                         3 => { // tail call to a function with the same results
-                            let cands: Vec<usize> = (0..self.func_types.len()).filter(|f| self.types[self.func_types[*f] as usize].1 == self.results).collect();
+                            let exec = self.cfg.profile == Profile::Exec; let cur = self.cur; let cands: Vec<usize> = (0..self.func_types.len()).filter(|f| self.types[self.func_types[*f] as usize].1 == self.results && !(exec && *f >= cur)).collect();
                             if cands.is_empty() { out.push(I::Unreachable); self.note("Unreachable"); } else {
                                 let f = *self.r.pick(&cands); for c in self.types[self.func_types[f] as usize].0.clone() { self.push_val(&mut out, c); }
                                 out.push(I::ReturnCall(f as u32)); self.note("ReturnCall"); } }
@@ -224,7 +231,7 @@ pub fn module(r: &mut Rng, tab: &Table, cfg: &GenCfg) -> (Vec<u8>, GInfo) {
     let mut c = we::CodeSection::new();
     for fi in 1..func_types.len() {
         let (ps, rs) = types[func_types[fi] as usize].clone();
-        let mut cx = Ctx { r, tab, cfg, info: &mut info, types: &types, func_types: &func_types, nparams: ps.len(), params: ps.clone(), results: rs.clone(), by_first_param: by_first_param.clone() };
+        let mut cx = Ctx { r, tab, cfg, info: &mut info, types: &types, func_types: &func_types, nparams: ps.len(), params: ps.clone(), results: rs.clone(), by_first_param: by_first_param.clone(), loops: vec![], cur: fi };
         let mut labels = vec![rs.clone()];
         let body = cx.seq(&mut labels, vec![], &rs, 0);
         let mut wf = we::Function::new(env::local_decls());
